@@ -258,6 +258,14 @@ def gen_case(rng, focus):
         elif pick == "block_dl":
             script.append({"k": "raw", "d": [rng.choice([0xC0, 0xC2, 0xC4, 0xC6]), idx & 0xFF, idx >> 8,
                                              sub] + [rng.randrange(256) for _ in range(4)]})
+    # the library serves every sub-index 1..255 of an ARRAY on demand from member 1 (a feature the
+    # server model does not describe): a raw frame that happens to address such a member is re-aimed
+    # at sub-index 0
+    arrays = {o["idx"]: {m["sub"] for m in o["members"]} for o in objs if o["kind"] == "arr"}
+    for it in script:
+        d = it.get("d") if it["k"] == "raw" else None
+        if d and len(d) >= 4 and (d[1] | d[2] << 8) in arrays and d[3] not in arrays[d[1] | d[2] << 8]:
+            d[3] = 0
     return {"objs": objs, "script": script, "ncb": rng.choice([0, 1, 2]), "seed": rng.randrange(1 << 30)}
 
 
